@@ -12,11 +12,19 @@
 //   cda-direct  processObjects called directly (needed to present a same-type pair in reversed order)
 //   implicit    ContactTracker::HalfSpaceConvexImplicit / ConvexImplicitPair called directly on sphere/ellipsoid
 // Oracles: contact reported <=> signed distance < -band, none <=> > +band (band = 1e-6*size, either answer inside);
-// depth, normal (surface1 -> surface2, mapped to A -> B), contact point (midway between the two extreme points),
-// relative curvatures; X_S1S2 recorded in the Contact; brick lowest vertex; mesh face sets (faces partly or
-// completely inside the other object; faces within the band may go either way). Metamorphic: the same pair
-// registered / presented in the other order gives the same contact with roles swapped and normal reversed; a common
-// rigid motion moves point and normal with it and leaves depth unchanged; warm-started tracking == cold evaluation.
+// depth, normal (surface1 -> surface2, mapped to A -> B), contact point (midway between the two extreme points);
+// X_S1S2 recorded in the Contact; brick lowest vertex; BrokenContact separation; mesh face sets (faces partly or
+// completely inside the other object; faces within the band may go either way). A grossly wrong contact (normal
+// off by > 0.5 rad or depth off by > 25% of the size) is reported once as gross@<pair>:<layer>. Metamorphic: the
+// same pair registered / presented in the other order gives the same contact with roles swapped and normal
+// reversed; a common rigid motion moves point and normal with it and leaves depth unchanged; warm-started tracking
+// == cold evaluation. For sphere/mesh and mesh/mesh every fourth case ends with object A wholly inside B (volumes
+// overlap, surfaces do not cross): keyed exists@<pair>:<layer>:engulfed-missed.
+// Relative curvatures are compared too but only counted (obs extra:curvature-*): they are not in the statement.
+// Violation keys: <clause>@<pair>:<layer>[:detail]; the margin classes are <clause>@<pair>.
+// Tolerances: 1e-9*scale (closed-form pairs), 1e-7*scale and 1e-6 rad times the conditioning of the minimum
+// (iterative pairs); the normal of an iterative PointContact is (p1-p2)/|p1-p2| and is only required to
+// 1e-10*scale/depth (point accuracy over depth).
 //
 // Legal-client preconditions (not judged outside them, rejections are counted as skips):
 //   * meshes are closed, oriented, non-self-intersecting manifolds (documented requirement of TriangleMesh);
@@ -536,9 +544,6 @@ static bool solveOutermost(const std::function<double(double)>& f, double tMax, 
     return false;
 }
 
-#include <time.h>
-static double cpuNow() { timespec ts; clock_gettime(CLOCK_PROCESS_CPUTIME_ID, &ts); return ts.tv_sec + 1e-9 * ts.tv_nsec; }
-static std::map<std::string,double> g_prof; static double g_t0 = 0; static void profMark(const char* w) { double t = cpuNow(); g_prof[w] += t - g_t0; g_t0 = t; }
 struct Opts { int pair = -1; double maxAspect = 4; bool thorough = false; bool verbose = false; };
 
 static void runCase(Ctx& c, long idx, Rng& r, const Opts& o) {
@@ -547,7 +552,7 @@ static void runCase(Ctx& c, long idx, Rng& r, const Opts& o) {
     const PairDef& pd = PAIRS[pi];
     const bool retreat = (j & 1) != 0;
     const bool aOnGround = (j >> 1) % 4 == 3;
-    g_t0 = cpuNow(); c.setPhase(std::string("build ") + pd.name);
+    c.setPhase(std::string("build ") + pd.name);
     Shape A, B;
     makeShape(A, pd.a, r, o.thorough, o.maxAspect); makeShape(B, pd.b, r, o.thorough, o.maxAspect);
     // variant for the two pairs with a finite object A against a mesh: A small enough to sit wholly inside B
@@ -596,7 +601,7 @@ static void runCase(Ctx& c, long idx, Rng& r, const Opts& o) {
     Json desc = Json::obj().set("pair", pd.name).set("A", A.toJson()).set("B", B.toJson()).set("aOnGround", aOnGround).set("retreat", retreat);
     for (int k = 0; k < nPoses; ++k) {
         const std::string& want = path[k];
-        profMark("build+prev"); c.setPhase(std::string(pd.name) + " place " + want);
+        c.setPhase(std::string(pd.name) + " place " + want);
         if (k > 0) { RB = Rotation(r.uni(0.02, 0.12), randUnit3(r)) * RB; Vec3 du = randVec3(r, 0.05); u = u + du; u = u / u.norm(); }
         // ---- placement
         double target, t = 0; bool placed;
@@ -630,7 +635,7 @@ static void runCase(Ctx& c, long idx, Rng& r, const Opts& o) {
         Transform XT[2] = {XA, poseB(B, RB, ref, u, t)};
 
         // ---- the library, base presentation (warm along the path)
-        profMark("place"); c.setPhase(std::string(pd.name) + " evaluate " + want);
+        c.setPhase(std::string(pd.name) + " evaluate " + want);
         Eval e0 = evalSys(S1, warm, XT);
         warm.autoUpdateDiscreteVariables();
         const Exact ex = computeExact(sc, e0.X[0], e0.X[1]);
@@ -662,7 +667,7 @@ static void runCase(Ctx& c, long idx, Rng& r, const Opts& o) {
 
         // ---- cold evaluation at the same pose == warm-started tracking
         if (k > 0) {
-            profMark("evaluate+exact+judge"); c.setPhase(std::string(pd.name) + " cold " + want);
+            c.setPhase(std::string(pd.name) + " cold " + want);
             Eval e1 = evalSys(S1, cold, XT);
             judge(Jt, ex, e1.trk, tolReg, e1.X, scale);
             compare(Jt, "warm", ex, e1.trk, e0.trk, tolReg);
@@ -670,7 +675,7 @@ static void runCase(Ctx& c, long idx, Rng& r, const Opts& o) {
         // ---- the other registration order
         Eval e2;
         {
-            profMark("cold"); c.setPhase(std::string(pd.name) + " swapped " + want);
+            c.setPhase(std::string(pd.name) + " swapped " + want);
             e2 = evalSys(S2, st2, XT);
             if (pd.cda) { judge(Jc, ex, e2.cda, tolReg, e2.X, scale); compare(Jc, "swap", ex, e0.cda, e2.cda, tolReg); }
             judge(Jt, ex, e2.trk, tolReg, e2.X, scale); compare(Jt, "swap", ex, e0.trk, e2.trk, tolReg);
@@ -679,7 +684,7 @@ static void runCase(Ctx& c, long idx, Rng& r, const Opts& o) {
         Transform XTm[2] = {XM * e0.X[0], XM * e0.X[1]};
         Exact exm = movedExact(ex, XM);
         if (!aOnGround) {
-            profMark("swapped"); c.setPhase(std::string(pd.name) + " moved " + want);
+            c.setPhase(std::string(pd.name) + " moved " + want);
             Eval e3 = evalSys(S1, cold, XTm);
             // the exact geometry of the moved configuration is the moved exact geometry (poses agree to rounding)
             JudgeCtx Jcm{c, sc, Jc.tag, witFor("cda(moved)", e3.X, &exm)}, Jtm{c, sc, Jt.tag, witFor("trk(moved)", e3.X, &exm)};
@@ -688,7 +693,7 @@ static void runCase(Ctx& c, long idx, Rng& r, const Opts& o) {
         }
         // ---- direct calls
         if (pd.cda) {
-            profMark("moved"); c.setPhase(std::string(pd.name) + " cda-direct " + want);
+            c.setPhase(std::string(pd.name) + " cda-direct " + want);
             JudgeCtx Jd{c, sc, std::string(pd.name) + "/cda-direct", witFor("cda-direct", e0.X, &ex)};
             LibContact d0 = directCda(A, e0.X[0], B, e0.X[1], false);
             judge(Jd, ex, d0, tolReg, e0.X, scale); c.cover(Jd.tag + "/" + cls);
@@ -698,7 +703,7 @@ static void runCase(Ctx& c, long idx, Rng& r, const Opts& o) {
             judge(Jdm, exm, d2, tolReg, XTm, scale); compare(Jd, "motion", ex, d0, mapBack(d2, XM), tolReg);
         }
         if (pd.implicit) {
-            profMark("cda-direct"); c.setPhase(std::string(pd.name) + " implicit " + want);
+            c.setPhase(std::string(pd.name) + " implicit " + want);
             JudgeCtx Ji{c, sc, std::string(pd.name) + "/implicit", witFor("implicit", e0.X, &ex)};
             LibContact i0 = directImplicit(pd.implicit, A, e0.X[0], B, e0.X[1], false);
             judge(Ji, ex, i0, tolImp, e0.X, scale); c.cover(Ji.tag + "/" + cls);
@@ -715,11 +720,10 @@ int main(int argc, char** argv) {
     Ctx c(a);
     Opts o;
     o.pair = (int)a.getInt("pair", -1);
-    o.maxAspect = a.getNum("aspect", 4.0);
     o.thorough = a.tier == "thorough";
+    o.maxAspect = a.getNum("aspect", o.thorough ? 10.0 : 4.0);
     o.verbose = a.verbose; g_verbose = a.verbose;
     if (a.prop != "C35") { fprintf(stderr, "mon_collide: unknown property %s\n", a.prop.c_str()); return 2; }
-    struct ProfDump { ~ProfDump() { if (getenv("COLLIDE_PROF")) for (auto& kv : g_prof) fprintf(stderr, "prof %-28s %.3f\n", kv.first.c_str(), kv.second); } } profDump;
     return runCases(c, [&](long i, Rng& r) {
         try { runCase(c, i, r, o); }
         catch (const std::exception& ex) {
